@@ -279,6 +279,13 @@ RECURSIVE SortArgs(_)
 SortArgs(S) == IF S = {} THEN <<>>
                ELSE LET m == CHOOSE a \in S : \A b \in S : a.i <= b.i IN <<m>> \o SortArgs(S \ {m})
 
+(* The builder API: a sequence of arg(i, v) / arg_path(i, v) calls denotes "the last call for an index wins", in
+   index order, whatever the order of the calls. *)
+LastWins(ops) == {[i |-> ops[j].i, v |-> ops[j].v] :
+                    j \in {x \in 1..Len(ops) : \A y \in (x+1)..Len(ops) : ops[y].i # ops[x].i}}
+ArgsOfOps(ops) == SortArgs(LastWins(ops))
+OpsOfKind(ops, k) == SelectSeq(ops, LAMBDA o : o.k = k)
+
 BuildRule(pairs) ==
   LET ks == [j \in 1..Len(pairs) |-> KeyOf(pairs[j][1])]
       n  == Len(pairs)
